@@ -504,7 +504,7 @@ def part_bs(res, rng, exe, n_inst, n_small, stats):
     stats['bs_cert_time_s'] = round(dtc, 2)
     tol, ctol = F(1, 10 ** 9), F(1, 10 ** 5)
     rep = 'printf "%s\\n" | build/bin/c20_replay-plain-*'
-    reported = 0
+    rep_by_tag = {}
     for g, (des, ws, cs, pl, tag) in enumerate(groups):
         start, t = index[g]
         n = len(des)
@@ -592,8 +592,8 @@ def part_bs(res, rng, exe, n_inst, n_small, stats):
                        'variable_permutation': pl[len(pl) // 2][0], 'constraint_order': pl[len(pl) // 2][1], 'replay': rep % cmds[start + 8 + len(pl)]}
         if bad is not None:
             stats['bs_failing_instances'] += 1
-            if reported < 3:
-                reported += 1
+            if rep_by_tag.get(tag, 0) < (2 if tag == 'corpus' else 1):      # corpus first, but a generator find of each family is reported too
+                rep_by_tag[tag] = rep_by_tag.get(tag, 0) + 1
                 bad['input'] = inp
                 res.violation(bad)
         elif len(SAMPLES) < 6 and tag != 'corpus' and any(parse_S(o[0])[2]):
@@ -1856,7 +1856,7 @@ def run(tier):
     tb = part_b(res, rng.fork(), exe, 6000 if thorough else 1500, stats)
     tc = part_c(res, rng.fork(), exe, 1200 if thorough else 250, stats)
     bs_stats = collections.defaultdict(int)
-    tbs = part_bs(res, C.SplitMix64(C.get_seed() ^ 0xC20B5), exe, 2500 if thorough else 350, 60 if thorough else 14, bs_stats)
+    tbs = part_bs(res, C.SplitMix64(C.get_seed() ^ 0xC20B5), exe, 2500 if thorough else 350, 150 if thorough else 40, bs_stats)
     stats.update(bs_stats)
     exe_x = C.build_harness('c20_replay', ['libvpsc', 'libavoid'], 'exc', extra_srcs=[os.path.join(C.COLA, 'libcola', 'pseudorandom.cpp')])
     hist = new_hist()
